@@ -481,7 +481,26 @@ def _tree_chunk(items):
                         fails.append(("tree:same-tree-for-str-and-bytes", {"text": text, "entry": entry, "submitted_as": label},
                                       "submitting the text as %s gives a different tree (or different spans) than submitting it as str" % label))
             nodes += sum(1 for _ in TC.walk(doc))
+            if not efv:
+                # the tree is a function of the token sequence: re-spelling what lies BETWEEN the tokens (blanks, commas, comments ended by LF, CR or CRLF, byte order
+                # marks) changes the spans only.  One spelling per text, in rotation over the corpus.
+                toks = SR.tokens(text)
+                if toks and len(toks) > 2:
+                    filler = RESPELLINGS[(n + len(text)) % len(RESPELLINGS)]
+                    text2 = filler.join(text[a:b] for _k, a, b in toks[:-1])
+                    f0 = dict(flags, no_location=True)
+                    try:
+                        ref, other = _entry_call(entry)(text, **f0), _entry_call(entry)(text2, **f0)
+                        same = ref == other
+                    except Exception as e:
+                        same, other = False, e
+                    if not same:
+                        fails.append(("tree:independent-of-ignored-tokens", {"text": text, "respelled": text2, "entry": entry},
+                                      "the same tokens separated by %r instead give %s" % (filler, ("%r" % (other,))[:160] if isinstance(other, Exception) else "a different tree")))
     return n, nodes, fails
+
+
+RESPELLINGS = [" # c\r", "\r", " #\r\n", ",", "\ufeff", " # \u00e9 \U0001F600 c\n", "\t", "\n\n", " # c\r# d\r"]
 
 
 def tree_check(tier, seed, jobs=16):
